@@ -16,6 +16,15 @@ generated code, iterator adapters, or a second call path that reaches the same f
 `&T` impl, an erased form, a convenience method) - so that the directly named functions stay untouched but the property
 still breaks for a caller who goes through that other path. Text formatting counts where the property talks about
 printed output.""",
+ "numeric": """
+ANGLE FOR THIS ROUND: make the breakage NUMERIC. Candidates: integer extremes (MIN, MAX, -1, 0, 1) and the difference
+between wrapping / checked / saturating / overflowing arithmetic; signed vs unsigned; casts between usize / u32 / u64 / i64 /
+i128 and between f32 / f64 (truncation, rounding, sign extension, `as` vs `try_from` vs `From`); floats: NaN (payloads,
+comparisons, min/max), +0.0 vs -0.0, infinities, subnormals, the largest finite values, values just below / above an integer
+or a power of two, rounding direction, fused vs separate operations, summation order; probabilities exactly 0, exactly 1,
+the smallest positive value, 1 - epsilon; ratios whose numerator or denominator is 0 or near the type's maximum; sizes and
+counts 0, 1, 2 and around 2^8 / 2^16 / 2^32; off-by-one at inclusive / exclusive range ends; remainder and division of
+negative numbers; comparison operators that differ only on equality. The change must still look like ordinary code.""",
  "state": """
 ANGLE FOR THIS ROUND: earlier rounds concentrated on single calls with unusual inputs. This time make the breakage depend
 on HISTORY: a value that is used more than once (the second call differs from the first), state that leaks from one
